@@ -10,9 +10,9 @@ ENGINE_TB = [
 PROPS = {}
 
 
-def prop(pid, modules, level, technique, text, note, trusted=(), explanation="", design_ref="", bounded=None):
+def prop(pid, modules, level, technique, text, note, trusted=(), explanation="", design_ref="", bounded=None, lemmas=False):
     PROPS[pid] = dict(modules=modules, level=level, technique=technique, text=text, note=note,
-                      trusted_base=ENGINE_TB + list(trusted), explanation=explanation, design_ref=design_ref, bounded=bounded)
+                      trusted_base=ENGINE_TB + list(trusted), explanation=explanation, design_ref=design_ref, bounded=bounded, lemmas=lemmas)
     register(pid, *modules)
 
 
@@ -60,4 +60,17 @@ prop(
              "assumed: logging.getLogger(name) is a function of the name; Logger.log on an enabled logger emits one record",
              "hypothesis: the wrapped pool is well-behaved (pure reads, faithful demand store)"],
     design_ref="5/C16",
+)
+
+prop(
+    "C07",
+    ["contracts.c07_composites"],
+    "proof",
+    "contract-based deductive verification: loop invariants over the children, sums as fold spec functions with induction lemmas (proved on every run), nonlinear real arithmetic in z3",
+    "conservation, proportional shares, share bounds, exact read-back, supply sum, convexity of utilisation/allocation and the documented fallbacks are postconditions proved for every child count and every non-negative child state",
+    "trusted: pyvc's Python semantics, floats as reals (so 'up to rounding' is exact equality), children are pairwise distinct well-behaved pools, the induction principle behind the fold lemmas",
+    trusted=["hypothesis: children are pairwise distinct well-behaved pools with non-negative supply/utilisation/allocation; writing one child's demand changes nothing else",
+             "meta: each fold lemma is proved as base+step obligations; concluding the universally quantified lemma from them is the induction principle on naturals"],
+    design_ref="5/C07",
+    lemmas=True,
 )
